@@ -3,6 +3,7 @@ package seq
 import (
 	"fmt"
 	"testing"
+	"time"
 
 	age "github.com/craterdog/go-collection-framework/v4/agent"
 	col "github.com/craterdog/go-collection-framework/v4/collection"
@@ -19,7 +20,7 @@ type stackOp struct {
 }
 
 type stackCase struct {
-	Ctor string    `json:"ctor"` // make cap array seq
+	Ctor string    `json:"ctor"`           // make cap array seq
 	Elem string    `json:"elem,omitempty"` // element type (codec): int any string slice ptr
 	Cap  uint      `json:"cap,omitempty"`
 	Init []int     `json:"init,omitempty"`
@@ -287,8 +288,8 @@ func execStack[E any](c stackCase, cd lib.Codec[E]) core.Result {
 // exhaustive push/pop words for small capacities
 type stackWord struct {
 	Cap  uint   `json:"cap"`
-	Word string `json:"word"` // u = push, o = pop
-	Dup  bool   `json:"dup,omitempty"` // pushed values repeat with period 2
+	Word string `json:"word"`           // u = push, o = pop
+	Dup  bool   `json:"dup,omitempty"`  // pushed values repeat with period 2
 	Look int    `json:"look,omitempty"` // 0: the views are checked after every operation; k: after every k-th operation and at the end
 }
 
@@ -336,6 +337,9 @@ func TestC13(t *testing.T) {
 	core.DFS(r, core.Check[largeCase]{Name: "large-sizes", Gen: genLarge([]string{"Stack"}), Exec: execLarge("C13"), NoJournal: true}, 0)
 	core.Rapid(r, core.Check[stackCase]{Name: "history", Gen: genStackCase, Exec: execStackCase}, r.N(3000, 30000))
 	core.DFS(r, core.Check[stackWord]{Name: "words", Gen: genStackWord(r.N(9, 12)), Exec: execStackWord, NoJournal: true}, 0)
+	core.DFS(r, core.Check[longLivedCase]{Name: "long-lived-instance", Gen: genLongLived([]string{"Stack"}, r.N(150000, 1200000)), Exec: execLongLived("C13"), NoJournal: true, HangLimit: 300 * time.Second}, 0)
+	core.DFS(r, core.Check[lookupCase]{Name: "class-lookups", Gen: genLookups([]string{"Stack"}), Exec: execLookups("C13"), NoJournal: true}, 0)
+	core.DFS(r, core.Check[copiesCase]{Name: "copies-of-one-stack", Gen: genCopies, Exec: execCopies, NoJournal: true}, 0)
 	core.DFS(r, core.Check[stackCtorCase]{Name: "ctor-sizes",
 		Gen: func(s core.Source) stackCtorCase {
 			return stackCtorCase{Ctor: core.Pick(s, []string{"array", "seq"}, "ctor"), N: s.Choose(34, "n")}
